@@ -769,7 +769,7 @@ package flags
 //@   let clears := clearsFirst(option)
 //@   let rejected := len(option.Choices) != 0 && value != nil && !inChoices(option, *value)
 //@   loop 1 invariant found == exists(i, 0, idx_1, option.Choices[i] == *value)
-//@   ensures[C05] option.isSet && option.preventDefault && !option.clearReferenceBeforeSet
+//@   ensures[C05,C06] option.isSet && option.preventDefault && !option.clearReferenceBeforeSet
 //@   ensures[C01,C05] ncalls(Option.empty) == e0 + ite(clears, 1, 0) && (clears ==> callarg(Option.empty, e0, 0) == option)
 //@   ensures[C11] rejected ==> isTyped(err, ErrInvalidChoice) && ncalls(convert) == c0 && ncalls(Option.call) == k0
 //@   ensures[C01,C11] !rejected && option.isFunc() ==> ncalls(Option.call) == k0 + 1 && ncalls(convert) == c0 && callarg(Option.call, k0, 0) == option && callarg(Option.call, k0, 1) == value && err == callres(Option.call, k0, 0)
@@ -829,6 +829,7 @@ package flags
 //@   loop 1 invariant option.isSetDefault && (idx_1 > 0 ==> option.isSet && !option.preventDefault && !option.clearReferenceBeforeSet) && (idx_1 == 0 ==> !option.preventDefault)
 //@   ensures[C05] old(option.preventDefault) ==> err == nil && ncalls(Option.Set) == s0 && ncalls(Option.empty) == e0 && option.isSet == old(option.isSet) && option.isSetDefault == old(option.isSetDefault) && option.preventDefault
 //@   ensures[C05] !old(option.preventDefault) ==> option.isSetDefault
+//@   ensures[C05] !old(option.preventDefault) && err == nil ==> !option.preventDefault
 //@   ensures[C05] !old(option.preventDefault) && len(used) > 0 ==> ncalls(Option.empty) >= e0 + 1 && callarg(Option.empty, e0, 0) == option && ncalls(Option.Set) <= s0 + len(used) && (err == nil ==> ncalls(Option.Set) == s0 + len(used))
 //@   ensures[C05] !old(option.preventDefault) && len(used) > 0 ==> forall(k, 0, ncalls(Option.Set) - s0, callarg(Option.Set, s0 + k, 0) == option && callarg(Option.Set, s0 + k, 1) != nil && *callarg(Option.Set, s0 + k, 1) == used[k])
 //@   ensures[C05] !old(option.preventDefault) && len(used) == 0 ==> err == nil && ncalls(Option.Set) == s0 && option.isSet == old(option.isSet)
@@ -1367,8 +1368,11 @@ package flags
 //@   ensures[C16] option.Hidden ==> ncalls(bufio.Writer.WriteString) == old(ncalls(bufio.Writer.WriteString)) && ncalls(bytes.Buffer.WriteTo) == old(ncalls(bytes.Buffer.WriteTo))
 //@   ensures[C16] !option.Hidden ==> ncalls(bytes.Buffer.WriteTo) == old(ncalls(bytes.Buffer.WriteTo)) + 1
 //@   ensures[C16] !option.Hidden && option.Description != "" ==> ncalls(wrapText) == old(ncalls(wrapText)) + 1 && callarg(wrapText, old(ncalls(wrapText)), 0) == helpDesc(option)
+//@   ensures[C17] !option.Hidden && option.Description != "" ==> utf8.RuneCountInString(callarg(wrapText, old(ncalls(wrapText)), 2)) == descCol(info.maxLongLen, info.hasShort, info.hasValueName) && callarg(wrapText, old(ncalls(wrapText)), 1) == info.terminalColumns - descCol(info.maxLongLen, info.hasShort, info.hasValueName)
 //@   ensures[C16] option.Hidden || option.Description == "" ==> ncalls(wrapText) == old(ncalls(wrapText))
 
+// the column in which descriptions start
+//@ pure func descCol(m int, hs bool, hv bool) int = m + distanceBetweenOptionAndDescription + ite(hs, 2, 0) + ite(m > 0, 4, 0) + ite(hv, 3, 0) + paddingBeforeOption
 //@ func (a *alignmentInfo) descriptionStart() (r int)
 //@   props C17 C16 C04
 //@   requires a != nil
@@ -1418,6 +1422,7 @@ package flags
 //@   loop 9 invariant[C17] forall(a, 0, len(args), argWidth(args[a]) + ite(c != p.Command, 4, 0) <= aligninfo.maxLongLen)
 //@   at[C17] call Parser.writeHelpOption #1: use(eag_elem, root, cnt_5, idx_6)
 //@   at[C17] call utf8.RuneCountInString #1: use(argWidth_def, arg) && use(rc_sub, strings.Repeat(" ", paddingBeforeOption), arg.Name) && use(rc_sub, strings.Repeat(" ", paddingBeforeOption) + arg.Name, ":") && utf8.RuneCountInString(argPrefix) <= argWidth(arg) + 3
+//@   at[C17] call wrapText #2: utf8.RuneCountInString(descPrefix) == descStart && descStart == descCol(aligninfo.maxLongLen, aligninfo.hasShort, aligninfo.hasValueName)
 //@   at[C17] call strings.Repeat #2: use(argWidth_def, arg) && use(rc_sub, strings.Repeat(" ", paddingBeforeOption), arg.Name) && use(rc_sub, strings.Repeat(" ", paddingBeforeOption) + arg.Name, ":")
 //@   loop 6 invariant unfold(hRows(p, c, idx_6 + 1)) && unfold(hRows(p, c, 0)) && ncalls(Parser.writeHelpOption) == w0 + hChain(p, cnt_5) + hRows(p, c, idx_6)
 //@   loop 6 invariant forall(k, w0, ncalls(Parser.writeHelpOption), showable(callarg(Parser.writeHelpOption, k, 2)))
